@@ -469,6 +469,13 @@ class Evaluator:
                 c[self.expr(t.slice, env)] = v
             except (KeyError, IndexError, TypeError) as ex:
                 raise _Raise(type(ex).__name__)
+        elif isinstance(t, ast.Subscript) and isinstance(t.slice, ast.Slice) and t.slice.step is None:
+            c = self.expr(t.value, env)
+            if not isinstance(c, list):
+                raise AnalysisError(f'slice store into an unmodelled value {text(t)}')
+            lo = self.expr(t.slice.lower, env) if t.slice.lower else None
+            hi = self.expr(t.slice.upper, env) if t.slice.upper else None
+            c[lo:hi] = list(v)
         else:
             raise AnalysisError(f'unsupported assignment target {text(t)}')
 
@@ -823,6 +830,8 @@ class Evaluator:
                     return self.call_function(self._class_member(f.attr), args, kwargs)
                 if isinstance(recv, list) and f.attr in ('append', 'extend', 'sort', 'insert', 'pop', 'remove', 'reverse', 'clear', 'copy') or isinstance(recv, dict) and f.attr in ('update', 'copy', 'pop', 'setdefault', 'clear') or isinstance(recv, (set, frozenset)) and f.attr in ('add', 'discard', 'union', 'copy', 'intersection', 'difference', 'issubset', 'isdisjoint', 'update', 'remove', 'clear', 'issuperset'):
                     return getattr(recv, f.attr)(*args, **kwargs)
+                if isinstance(recv, (list, dict, tuple, set, frozenset, str)) and f.attr in ('__iter__', '__len__', '__contains__', '__getitem__'):
+                    return getattr(recv, f.attr)(*args, **kwargs)  # the container protocol of a built-in value, called by name
                 if self.model_types and isinstance(recv, self.model_types) and callable(getattr(recv, f.attr, None)):
                     return getattr(recv, f.attr)(*args, **kwargs)
                 if isinstance(recv, (str, bytes, int, float, tuple, list, dict, type(None))) and not hasattr(recv, f.attr):
@@ -881,6 +890,11 @@ class SourceBacked(Record):
     def _sb_member(self, name):
         module, cls, _ = object.__getattribute__(self, '_sb')
         q = f'{cls}.{name}'
+        defs = [st for st in module.get(cls).body if isinstance(st, ast.FunctionDef) and st.name == name]
+        if defs:
+            # a property getter and its setter share the name: the getter is the one to read through
+            getters = [d for d in defs if any(text(x) == 'property' for x in d.decorator_list)]
+            return (getters or defs)[0]
         if module.has(q):
             n = module.get(q)
             if isinstance(n, ast.FunctionDef):
